@@ -142,5 +142,6 @@ def DP : Prims where
     cases a <;> simp [dvIsNum]
   other := fun _ _ _ w => (.error "unsupported", w)
   unary := fun _ _ w => (.error "unsupported", w)
+  getIndex := fun _ _ w => (.error "unsupported", w)
 
 end JanetModel.Spec
